@@ -42,7 +42,7 @@ FLOORS = {'*': {
     'request': 500, 'response:success': 300, 'response:error': 300, 'error': 200, 'batch-request': 100,
     'batch-response': 100, 'batch-level-error': 20, 'result:null': 5, 'data:null': 5, 'data:absent': 5, 'code:0': 5,
     'message:empty': 5, 'class:registered': 50, 'class:unregistered-default-base': 50, 'class:unregistered-custom-base': 50,
-    'class:custom-base-in-batch': 20, 'encoder:nested': 20, 'history': 200, 'batch:len0': 2,
+    'class:custom-base-in-batch': 20, 'encoder:nested': 20, 'history': 200, 'batch:len0': 2, 'via-client': 200, 'via-client:null-id-elements': 50,
 }}
 
 ABSENT = '__absent__'
@@ -85,6 +85,20 @@ class AbcBase(JsonRpcError, metaclass=AbcErrorMeta):
     """a user-supplied base class (no code of its own) created through the derived metaclass"""
 
 
+class C5Redefined(JsonRpcError):
+    """first definition (a module that gets reloaded, an application class that is later refined)"""
+    code = 71006
+    message = 'c5 typed six'
+
+
+_C5RedefinedFirst = C5Redefined
+
+
+class C5Redefined(JsonRpcError):      # noqa: F811 - the later declaration of a code is the one in force
+    code = 71006
+    message = 'c5 typed six'
+
+
 class CustomBase(JsonRpcError):
     """a user-supplied base class (no code of its own)"""
 
@@ -97,7 +111,7 @@ REGISTERED = {
     -32700: pjrpc.exceptions.ParseError, -32600: pjrpc.exceptions.InvalidRequestError,
     -32601: pjrpc.exceptions.MethodNotFoundError, -32602: pjrpc.exceptions.InvalidParamsError,
     -32603: pjrpc.exceptions.InternalError, -32000: pjrpc.exceptions.ServerError,
-    71001: C5Typed1, 71002: C5Typed2, 71003: C5Typed3, 71004: C5AbcTyped, 71005: C5AfterAbc,
+    71001: C5Typed1, 71002: C5Typed2, 71003: C5Typed3, 71004: C5AbcTyped, 71005: C5AfterAbc, 71006: C5Redefined,
 }
 UNREGISTERED = [0, 1, -1, 2, 42, -32099, -32001, 2 ** 40, -(2 ** 40), 4711, 32000]
 BASES = {'default': JsonRpcError, 'custom': CustomBase, 'other': OtherBase, 'abc-meta': AbcBase}
@@ -454,6 +468,50 @@ def run_batch_level(ctx, error, base):
     ctx.ok('batch-level-error', cls, sample={'message': 'BatchResponse(error=...)', 'spec': error, 'error_cls': base, 'wire': t1})
 
 
+def run_via_client(ctx, items, extra_null, order, strict, is_async):
+    """the same messages through the real client: the batch request is serialised by the client, the scripted transport
+    answers with the wire form of a batch response (in any order, possibly with null-id elements a server adds for what
+    it could not identify), and what the client hands back must still hold every element that was on the wire.
+    items: [id, result, error-spec-or-None]"""
+    from .. import clientside
+    cls = ('via-client', repr(items), repr(extra_null), tuple(order), strict, is_async)
+    try:
+        resps = [v20.Response(i, result=r) if e is None else v20.Response(i, error=make_error(e)) for i, r, e in items]
+        nulls = [v20.Response(None, error=make_error(e)) for e in extra_null]
+        wire_elems = [resps[k].to_json() for k in order] + [n.to_json() for n in nulls]
+        text = json.dumps(wire_elems)
+        sent = []
+
+        def transport(request_text, is_notification, kwargs):
+            sent.append(request_text)
+            return text
+        client = (clientside.AsyncClient if is_async else clientside.SyncClient)(transport, strict=strict)
+        req = v20.BatchRequest(*[v20.Request(f'm{k}', [k], id=i) for k, (i, r, e) in enumerate(items)])
+        st, out = clientside.outcome_of(lambda: client.batch.send(req), is_async)
+        if st == 'exc':
+            raise Bad(f'via-client:send-raises:{type(out).__name__}', exception=repr(out))
+        d_req = strictjson.decode(sent[0])
+        if [el.get('id') for el in d_req] != [i for i, _, _ in items]:
+            raise Bad('via-client:request-ids-changed-on-the-wire', text=sent[0])
+        back = [norm(r.to_json()) for r in out]
+        want = [norm(w) for w in wire_elems]
+        if sorted(map(json.dumps, back)) != sorted(map(json.dumps, want)):
+            raise Bad('via-client:batch-response-elements-lost-or-altered' + (':null-id-element' if nulls else ''),
+                      on_the_wire=want, returned=back)
+        if bool(out.has_error) != (any(e is not None for _, _, e in items) or bool(extra_null)):
+            raise Bad('via-client:has_error-wrong')
+    except Bad as b:
+        ctx.violation(b.mech, 'via-client', cls, items=items, null_id_elements=extra_null, order=order, strict=strict, **b.w)
+        return
+    except Exception as ex:
+        ctx.violation(f'via-client:raises:{type(ex).__name__}', 'via-client', cls, items=items, exception=ex)
+        return
+    ctx.hit('via-client')
+    if extra_null:
+        ctx.hit('via-client:null-id-elements')
+    ctx.ok('via-client', cls, sample={'items': items, 'null_id_elements': extra_null, 'order': order})
+
+
 def run_history(ctx, which, ops):
     """ops: 'ser' | ['append', id] | ['extend', [ids]] ; every serialisation must reflect the current contents"""
     cls = ('history', which, repr(ops))
@@ -571,6 +629,15 @@ def gen(ctx):
                    [['', None, [1, '', ABSENT]]]):
         for base in BASES:
             yield 'batch_response', {'items': ritems, 'base': base}
+    # the same batches through the real clients
+    for _ in range(n // 30):
+        k = rng.randint(1, 4)
+        ids = rng.sample([x for x in IDS if x is not None], k)
+        items = [[i, values.value(rng, 2), None] if rng.random() < 0.6 else [i, None, rng.choice(specs)] for i in ids]
+        order = list(range(k))
+        rng.shuffle(order)
+        extra = [] if rng.random() < 0.5 else [[-32600, 'Invalid Request', ABSENT]] * rng.randint(1, 2)
+        yield 'via_client', dict(items=items, extra_null=extra, order=order, strict=rng.random() < 0.7, is_async=rng.random() < 0.5)
     # serialise / append / extend histories
     ops_alpha = ['ser', ['append', 1], ['append', 2], ['append', None], ['extend', [3, 4]], ['extend', [5]], ['extend', []],
                  ['extend', [None, 6]]]
@@ -587,4 +654,4 @@ def gen(ctx):
 
 
 KINDS = {'request': run_request, 'response': run_response, 'error': run_error, 'batch_request': run_batch_request,
-         'batch_response': run_batch_response, 'batch_level': run_batch_level, 'history': run_history}
+         'batch_response': run_batch_response, 'batch_level': run_batch_level, 'history': run_history, 'via_client': run_via_client}
